@@ -47,7 +47,7 @@ var props = map[string]propInfo{
 	},
 	"C07": {
 		Engine: "pbfsim", Race: true, Level: "exploration",
-		QuickRuns: 3000, ThoroughRuns: 120000, QuickSecs: 600, ThoroughSecs: 4 * 3600, Chunk: 100,
+		QuickRuns: 3000, ThoroughRuns: 300000, QuickSecs: 600, ThoroughSecs: 4 * 3600, Chunk: 100,
 		Rule:   "a run is one call history on a PBF scanner (3 in 4; 40-80 block files, 12-40 KB, with a long tail, decoders from {1,2,3,5,11,16}) or an XML scanner (1 in 4; 300-600 elements with up to 3 long runs of comments/unknown elements so that one Scan spans many reads): optional Header, Scan x k (k biased to the first third, but also up to past the end), then a stop - Close, cancel by the scanning goroutine, or cancel by a second goroutine that sleeps a drawn simulated duration (1..2^17 quanta) so that it lands at an arbitrary instant incl. inside Scan - then further Scan/Err/Close calls from a drawn script, under a drawn delay policy and reader chunking. 1 PBF history in 6 has a damaged block (catalogue of C06), 1 XML history in 6 is cut inside an element, which ends the scan with an error before the stop: Err must keep reporting that earlier error after Close/cancel; 1 in 12 is empty or ends inside its first block (Close must still return); 1 PBF stream in 4 starts with a data block. Oracle: sequential scanner model over the recorded history (simulated timestamps), Err precedence, bytes the reader handed out after the stop <= rest of the block in flight + one block + 4096, goroutine registry empty after Close / after a bare cancel at quiescence, no deadlock, no race report. Non-trivial: the stop was invoked while part of the input was still unread (pipeline in flight)",
 		Probes: []string{"stop-landed-with-input-in-flight", "stop-with-long-unread-tail", "cancel-landed-inside-a-Scan-call", "stop-after-end-of-input", "bare-cancel-quiescence-checked", "unbuffered-channels", "error-recorded-before-the-stop", "stream-starts-with-a-data-block", "empty-input"},
 		Real:   append([]string{"osmxml scanner + encoding/xml"}, pbfReal...), Simulated: pbfSim,
@@ -71,7 +71,7 @@ var props = map[string]propInfo{
 	},
 	"C06": {
 		Engine: "pbfsim", Race: true, Level: "fault_enumeration",
-		QuickRuns: 6 * 16, ThoroughRuns: 120 * 16, QuickSecs: 600, ThoroughSecs: 4 * 3600, Chunk: 1, Group: 16,
+		QuickRuns: 6 * 16, ThoroughRuns: 400 * 16, QuickSecs: 600, ThoroughSecs: 4 * 3600, Chunk: 1, Group: 16,
 		Rule:   "a run is (generated PBF file, slice): the file comes from the choice tape (3-6 data blocks, optional header, every optional part toggled); its cases are every cut offset (thorough: all offsets 0..len; quick: all block/prefix/BlobHeader boundaries +-3, ~40 offsets through the first and last block, 24 drawn), 6 drawn I/O-error offsets, 24 seeded bit flips in the PrimitiveBlock bytes of up to 3 raw blocks (oracle: no crash, no hang, objects of the earlier blocks first), and every damage class of the catalogue x {first, middle, last} data block (header classes on the header), each at 1, 2, 3 and 11 decoders under a drawn delay policy and reader chunking; the 16 runs of a file enumerate disjoint slices of its cases. Every case is one simulated execution and is non-trivial (a fault is injected in each); distinct = distinct (file, case, interleaving hash)",
 		Probes: []string{"error-after-correct-prefix", "error-after-nonempty-prefix", "clean-end-on-boundary", "io-error-returned", "bit-flip-detected", "bit-flip-undetected"},
 		Real:   pbfReal, Simulated: pbfSim,
